@@ -218,11 +218,50 @@ def bindLine (l : String) : String :=
       | _, _ => "bad"
   | _ => "bad"
 
+/-! ### histories: the pieces of a line are evaluated one after the other; a piece that fails contributes nothing -/
+
+def isDefForm : Sexp → Bool
+  | .list (.kw .define :: _) _ => true
+  | .list (.kw .defineSyntax :: _) _ => true
+  | _ => false
+
+/-- result of one piece on top of the accumulated forms -/
+def pieceRes (r : Except Err (List Sexp)) (onlyDefs : Bool) : String × Bool :=
+  match r with
+  | .error e => ("err " ++ errStr e, false)
+  | .ok xs =>
+      match evalProg 20000 xs with
+      | .ok v => (if onlyDefs then "ok" else "ok " ++ valStr v, true)
+      | .error e => ("err " ++ errStr e, false)
+
+partial def histGo (pieces : List (List Sexp)) (accM accS : List Sexp) (outM outS : List String) (fl : Flags) :
+    List String × List String × Flags :=
+  match pieces with
+  | [] => (outM.reverse, outS.reverse, fl)
+  | fs :: rest =>
+      let onlyDefs := fs.all isDefForm
+      let pm : Prog := { globals := builtinGlobals, forms := accM ++ fs }
+      let ps : Prog := { globals := builtinGlobals, forms := accS ++ fs }
+      let rm := expandM defaultFuel pm
+      let fl' := match rm with | .ok (_, f) => fl.or f | .error _ => fl.or (staticFlags pm)
+      let (sm, okm) := pieceRes (rm.map (·.1)) onlyDefs
+      let (ss, oks) := pieceRes (expandS defaultFuel ps) onlyDefs
+      histGo rest (if okm then accM ++ fs else accM) (if oks then accS ++ fs else accS) (sm :: outM) (ss :: outS) fl'
+
+def histLine (l : String) : String :=
+  let parts := l.splitOn " ;;;--- "
+  match parts.mapM readForms with
+  | none => "bad"
+  | some pieces =>
+      let (om, os, fl) := histGo pieces [] [] [] [] {}
+      s!"class={flagsStr fl} ## valM={" | ".intercalate om} ## valS={" | ".intercalate os}"
+
 def mainC13 (args : List String) : IO Unit := do
   let h ← IO.getStdin
   match args with
   | ["match"] => loop h matchLine
   | ["bind"] => loop h bindLine
+  | ["hist"] => loop h histLine
   | _ => loop h progLine
 
 end SteelVerif.C13
